@@ -206,6 +206,15 @@ class HSFZConnection:
 
         return await self._read_queue.get()
 
+    def _requeue(self, frames: list[HSFZDiagFrame]) -> None:
+        # Skipped frames are older than everything which arrived in the meantime;
+        # hand them out first again, otherwise the order of the messages changes.
+        pending: list[HSFZDiagFrame | int] = []
+        while not self._read_queue.empty():
+            pending.append(self._read_queue.get_nowait())
+        for item in [*frames, *pending]:
+            self._read_queue.put_nowait(item)
+
     async def read_diag_request(self) -> bytes:
         unexpected_packets = []
         while True:
@@ -224,8 +233,7 @@ class HSFZConnection:
                 continue
 
             # We do not want to consume packets that we were not expecting; add them to queue again
-            for item in unexpected_packets:
-                await self._read_queue.put(item)
+            self._requeue(unexpected_packets)
 
             return data
 
@@ -253,8 +261,7 @@ class HSFZConnection:
                 continue
 
             # We do not want to consume packets that we were not expecting; add them to queue again
-            for item in unexpected_packets:
-                await self._read_queue.put(item)
+            self._requeue(unexpected_packets)
 
             return
 
